@@ -163,6 +163,17 @@ def validity_check_oracle(ctx, per):
                     obs = f"(Ok {gbool(bool(v[0]))})" if tag == "ok" else f"(Exn {v})"
                     vterms.append(f"({nx[4:-1]}, {glist(ex.hint_keys, gtext)}, {glist(ex.format_constraint_keys, gtext)}, {glist(ex.requirement_constraint_keys, gtext)}, {obs})")
                     vmeta.append({"expression": s, "observed": str((tag, v))[:200]})
+        # many keys: the number of generated content evaluation results grows as 3^m * 2^n (729 for six requirement keys); the verdict does not depend on it
+        big = [("Muss ([1] U [2] U [3] U [4] U [5] U [6]) O [501]", False), ("Muss [1] U [2] U [3] U [4] U [5] U [6]", True),
+               ("Soll ([1] O [2]) U ([3] X [4]) U [5] U [6][901]", True), ("X ([1] U [2] U [3]) X (([4] U [5] U [6]) O [502])", False)]
+        if not ctx.quick:
+            big += [("Muss ([1] U [2] U [3] U [4] U [5] U [6] U [7]) X ([501] U [502])", False), ("Muss ([1] O [2] O [3] O [4]) U ([5] X [6] X [7])", True)]
+        for s, want in big:
+            tag, v = evalimpl.outcome(lambda: asyncio.run(is_valid_expression(s, var.set)))
+            n += 1
+            if tag != "ok" or v[0] is not want or (want and v[1] is not None) or (not want and not isinstance(v[1], str)):
+                ctx.fail(f"is_valid|{s}", {"expression": s}, f"({want}, {'None' if want else 'reason'})", str((tag, v))[:200],
+                         "oracle: validity check agrees with the structural criterion (an expression with many keys)")
     finally:
         inject.clear()
         evalimpl._configured = False  # pylint: disable=protected-access
